@@ -13,7 +13,7 @@ inc = [os.path.join(core.REPO, "include", "SQuIDS"), os.path.join(core.VERIF, "s
 bdir = os.path.join(core.VERIF, ".build", "dbg"); os.makedirs(bdir, exist_ok=True)
 ct = extract.instantiate(open(tpl).read())
 j = l1.Job("dbg_" + harness, ct, harness, enforce=None if enforce == "-" else enforce, replace=rep, unwind=unw, includes=inc, defines=defs,
-           loops=loops, unwindset=[x for x in os.environ.get("UWS","").split(",") if x], timeout=int(os.environ.get("TMO", "300")), slice_formula="SLICE" in os.environ)
+           loops=loops, sat_solver=os.environ.get("SOLVER"), object_bits=int(os.environ.get("OBJBITS","10")), unwindset=[x for x in os.environ.get("UWS","").split(",") if x], timeout=int(os.environ.get("TMO", "300")), slice_formula="SLICE" in os.environ)
 r = l1.run_job(j, bdir)
 print("error:", r.error, " seconds: %.1f" % r.seconds, " props:", len(r.props))
 nbad = 0
